@@ -2038,6 +2038,30 @@ impl Server {
                         return;
                     }
                 }
+                // The cluster's custom answers are compiled by the HTTP and
+                // HTTPS proxies, listener by listener, after the backend map
+                // (load balancing policy, health check, h2c flag) and the
+                // proxies queried before them have taken the cluster: a
+                // template that does not compile would be answered with a
+                // failure with half of the cluster already live. Refuse it
+                // here, before anything is touched.
+                let mut overrides = cluster.answers.clone();
+                if let Some(answer_503) = cluster.answer_503.as_ref() {
+                    overrides
+                        .entry("503".to_owned())
+                        .or_insert_with(|| answer_503.to_owned());
+                }
+                if let Err((name, error)) =
+                    crate::protocol::http::answers::HttpAnswers::templates(&overrides)
+                {
+                    push_queue(worker_response_error(
+                        req_id,
+                        crate::ProxyError::AddCluster(crate::ListenerError::TemplateParse(
+                            name, error,
+                        )),
+                    ));
+                    return;
+                }
                 self.add_cluster(cluster);
                 // Re-arm the metric drain tombstone in case this cluster id
                 // was previously removed — without this the drain would
